@@ -16,6 +16,7 @@
 package c04
 
 import (
+	"errors"
 	"fmt"
 	"sort"
 	"strings"
@@ -46,7 +47,7 @@ func genCase(t *rapid.T) c04Case {
 	}
 	two := len(l.Globals) == 2
 	tab := func(name string) string {
-		if noDB || rapid.IntRange(0, 2).Draw(t, "qual_"+name) == 0 {
+		if noDB || rapid.IntRange(0, 1).Draw(t, "qual_"+name) == 0 {
 			return shardfix.DB + "." + name
 		}
 		return name
@@ -195,6 +196,8 @@ func genCase(t *rapid.T) c04Case {
 // ---------------------------------------------------------------- reference
 
 type loc struct{ slice, db string }
+
+var errRecorded = errors.New("c04: statements recorded")
 
 func stmtKind(n ast.StmtNode) string {
 	switch n.(type) {
@@ -356,30 +359,49 @@ func checkCase(c c04Case) (o pbt.Outcome) {
 	}
 	o.NonTrivial = len(want) >= 2 && (qualified || hasAlias)
 
-	rounds := 1
+	// A SELECT picks its copy at random: plan it many times. Writes are planned
+	// twice. The statements generated here are plain and valid, so a Go runtime
+	// panic is a violation (the read did not land on a copy), and so is a statement
+	// that is accepted in one planning and refused in another.
+	rounds := 2
 	if kind == "select" {
-		rounds = 6 // the copy is chosen at random: look at several choices
+		rounds = 12
 	}
+	if len(want) < c.Layout.NSSlices {
+		o.Labels = append(o.Labels, "fewer_copies_than_slices")
+	}
+	accepted, refused := 0, ""
 	for round := 0; round < rounds; round++ {
 		p, perr, pan, _ := f.Plan(c.DB, c.SQL)
-		if perr != nil || pan != "" {
-			if pan != "" && shardfix.IsRuntimePanic(pan) {
-				o.Labels = append(o.Labels, "rejected_runtime_panic")
-			} else {
-				o.Labels = append(o.Labels, "rejected")
-			}
+		if pan != "" && shardfix.IsRuntimePanic(pan) {
+			o.Violation = fmt.Sprintf("global table %s (slices %v locations %v databases %v): planning %q panics: %s", g.Table, g.RuleSlices, g.Locations, g.Databases, c.SQL, pan)
 			return
+		}
+		if perr != nil || pan != "" {
+			refused = fmt.Sprintf("plan: %v %s", perr, pan)
+			continue
 		}
 		rec := shardfix.NewRecorder()
+		if kind == "select" {
+			rec.Fail = errRecorded // stop after the statements were handed over: the stub results cannot be merged
+		}
 		var execErr error
-		if pp := pbt.Catch(func() { _, execErr = p.ExecuteIn(util.NewRequestContext(), rec) }); pp != "" && len(rec.Stmts()) == 0 {
-			o.Labels = append(o.Labels, "rejected_panic_at_execute")
+		if pp := pbt.Catch(func() { _, execErr = p.ExecuteIn(util.NewRequestContext(), rec) }); pp != "" {
+			o.Violation = fmt.Sprintf("global table %s (slices %v locations %v databases %v): executing %q panics: %s (statements so far %v)", g.Table, g.RuleSlices, g.Locations, g.Databases, c.SQL, pp, sqlsOf(rec.Stmts()))
 			return
 		}
-		if execErr != nil && len(rec.Stmts()) == 0 {
-			o.Labels = append(o.Labels, "rejected_at_execute")
-			return
+		if execErr != nil && strings.Contains(execErr.Error(), errRecorded.Error()) {
+			execErr = nil
 		}
+		if execErr != nil {
+			if len(rec.Stmts()) > 0 {
+				o.Violation = fmt.Sprintf("global table %s: %q fails (%v) after %d statements were executed", g.Table, c.SQL, execErr, len(rec.Stmts()))
+				return
+			}
+			refused = "execute: " + execErr.Error()
+			continue
+		}
+		accepted++
 		stmts := rec.Stmts()
 		got := map[loc]int{}
 		for _, st := range stmts {
@@ -417,7 +439,7 @@ func checkCase(c c04Case) (o pbt.Outcome) {
 				case onlyDup:
 					o.Known, o.KnownWhat = "C04-F1", detail
 				case !isPrefixOrder(g.RuleSlices):
-					if p2, dup2 := copyProblems(want2, got); len(p2) == 0 || dup2 {
+					if p2, _ := copyProblems(want2, got); len(p2) == 0 {
 						o.Known, o.KnownWhat = "C04-F2", detail
 					} else {
 						o.Violation = detail
@@ -444,7 +466,14 @@ func checkCase(c c04Case) (o pbt.Outcome) {
 			}
 		}
 	}
-	o.Labels = append(o.Labels, "accepted")
+	switch {
+	case accepted > 0 && refused != "":
+		o.Violation = fmt.Sprintf("global table %s (slices %v locations %v databases %v): %q is accepted in %d of %d plannings and refused in the others (%s)", g.Table, g.RuleSlices, g.Locations, g.Databases, c.SQL, accepted, rounds, refused)
+	case accepted > 0:
+		o.Labels = append(o.Labels, "accepted")
+	default:
+		o.Labels = append(o.Labels, "rejected")
+	}
 	return
 }
 
